@@ -8,7 +8,7 @@ from dataclasses import dataclass, field
 from typing import Dict, List, Optional, Tuple, Iterator, Set, Any
 
 
-from .inline import inline_new_helpers, load_inventory, normalize_aliases
+from .inline import inline_new_helpers, load_inventory, normalize_aliases, desugar_modern_syntax
 
 
 class AnalysisError(Exception):
@@ -228,6 +228,7 @@ class Program:
                 except SyntaxError as e:
                     raise AnalysisError(f"cannot parse {path}: {e}")
                 # code cut out into functions the baseline does not have is pasted back into its callers (sa/inline.py)
+                desugar_modern_syntax(tree)        # match / walrus -> if-chains / assignments (no such syntax in the baseline tree)
                 if not os.environ.get('SA_NO_ALIAS'):      # selector aliases read through (sa/inline.py normalize_aliases)
                     normalize_aliases(tree)
                 new, log = inline_new_helpers(tree, modname, self.inventory)
